@@ -210,6 +210,12 @@ def run_inproc(case, sparse, preempt_at=(), count_lines=False, focus=None):
         # let the bodies start and settle (virtual time), then the initiator vanishes
         pair.em_a.sleep(case["settle"])
         obs["cut_at"] = s.now
+        if case.get("torn"):
+            # the initiator died in the middle of writing a message: the worker finds a truncated frame, then EOF
+            from vlib import refcodec as R
+
+            frame = R.ref_frame(4, 1, R.ref_dumps("x" * 30, versioned=False))
+            pair.ab.buf += frame[:min(case["torn"], len(frame) - 1)]
         pair.ab.wclosed = True   # the worker reads EOF
         pair.ba.rclosed = True   # the worker's writes hit a broken pipe
         done = s.wait_until(lambda: pair.worker_thread.state == D.FINISHED or any(e[0] == "_exit" for e in s.escalations),
@@ -264,6 +270,7 @@ class Inproc(Part):
                 pre=st.lists(st.tuples(st.one_of(st.integers(0, 30), st.integers(0, 300)), st.integers(0, 5)).map(list), max_size=30),
                 blk=st.lists(st.integers(0, 5), max_size=40))),
             exhaustive=st.booleans(),
+            torn=st.one_of(st.just(0), st.integers(1, 45)),  # bytes of a truncated last frame left on the wire
         ))
 
     def run(self, case, ctx):
@@ -281,11 +288,13 @@ class Inproc(Part):
         except D.Deadlock as e:
             raise Violation("inproc.blocks-forever", f"{e.blocked}") from None
         except D.StepBudget:
-            from vlib.core import Inconclusive
-
-            raise Inconclusive("steps") from None
+            # a deterministic count of scheduler operations (400000; these runs need a few thousand), not a time limit
+            raise Violation("inproc.no-progress", f"model {case['model']}, bodies {case['bodies']}, torn {case.get('torn', 0)}: the "
+                            f"worker's threads were still running after 400000 scheduler operations: livelock") from None
         labels = [case["model"]] + sorted({"body:" + b for b in case["bodies"]}) + ["how:" + str(obs["how"]),
                                                                                  "took:%d" % (0 if took < 1 else 5 if took < 6 else 15)]
+        if case.get("torn"):
+            labels.append("torn-frame")
         runs, viol = 1, []
         # a tenth of the cases additionally get every single preemption inside the shutdown path enumerated
         if case["exhaustive"] and (ctx.shard + s.steps) % 5 == 0:
@@ -299,9 +308,7 @@ class Inproc(Part):
                     except D.Deadlock as e:
                         raise Violation("inproc.blocks-forever", f"{e.blocked}") from None
                     except D.StepBudget:
-                        from vlib.core import Inconclusive
-
-                        raise Inconclusive("steps") from None
+                        raise Violation("inproc.no-progress", "still running after 400000 scheduler operations: livelock") from None
                     try:
                         judge_inproc(case, s1, obs1)
                     except Violation as v:
